@@ -70,7 +70,13 @@ def write_fasta(path, contigs, *, width=60, eol='\n', final_newline=True, gz=Fal
 	if final_newline:
 		text += eol
 	data = text.encode('ascii')
-	if gz:
+	if gz == 'multi':
+		# one gzip member per record (what `cat a.gz b.gz`, bgzip or pigz -i produce); a legal gzip file
+		pieces = [b'>' + p for p in data.split(b'>') if p] or [b'']
+		with open(path, 'wb') as f:
+			for p in pieces:
+				f.write(gzip.compress(p))
+	elif gz:
 		with gzip.open(path, 'wb') as f:
 			f.write(data)
 	else:
